@@ -11,7 +11,7 @@ def _c15_world(kind, harness, nd, r, hosts=None, tier="quick", insts=None):
 PROPS["C15"] = {
     "bounds": ("ring position: keys of 0..4 symbolic bytes, arbitrary digest; replica key text: host 1..2 (thorough 1..3) and instance 0..2 symbolic bytes out of [.0-9a-z], with and without port, 1..2 (thorough 1..3) replicas, "
                "plus the production constructor (100 replicas) on two concrete destinations; lookup: every sorted ring of 1..6 entries (thorough 1..9) with free positions x every key position; "
-               "order independence: 2 destinations x 1..2 replicas and 3 destinations x 1 replica, distinct or shared host names (thorough: 3 destinations with two or all three on one host), instance absent or one free byte, all ring positions free including ties, "
+               "order independence: 2 destinations x 1..2 replicas and 3 destinations x 1 replica, distinct or shared host names (shared host with 2 replicas and 3 destinations with two or all three on one host: thorough), instance absent or one free byte, all ring positions free including ties, "
                "every non-identity listing order; minimal disruption: 1..2 destinations + 1 added with 1 replica, 1 + 1 with 2 replicas (thorough 2 + 1 with 2 replicas and no instances, 1 + 1 with 2 replicas on one host, 3 + 1 with 1), then removal of any one destination, free positions, every key position; "
                "address split: every address of 0..6 arbitrary bytes; route level: real ConsistentHashing route (100 replicas, real MD5) over 2 concrete loopback destinations, Add of a third, DelDestination of any index, three concrete metric names"),
     "outside": ("MD5 itself (uninterpreted: arbitrary digests, a superset of what real MD5 can produce); replica count 100 as a distribution property; more than 3-4 destinations / 2 replicas with free positions (3 destinations x 2 replicas in two listing orders = 6 free ring entries did not finish within 2000 s and is not registered); "
@@ -53,7 +53,7 @@ PROPS["C15"] = {
             _c15_world("disruption", "VerifC15Disruption", 1, 2, "aa", tier="thorough"),
         ]},
         {"pkg": "route", "hdir": "route", "specs": [
-            _c15_world("order", "VerifC15OrderIndependent", 2, 2, "aa"),
+            _c15_world("order", "VerifC15OrderIndependent", 2, 2, "aa", tier="thorough"),
             _c15_world("disruption", "VerifC15Disruption", 2, 2, tier="thorough", insts="000"),
         ]},
         {"pkg": "destination", "hdir": "destination", "specs": [spec("C15/addr-split", "VerifC15AddrSplit")]},
